@@ -1667,6 +1667,10 @@ class UTPM(Ring, RawAlgorithmsMixIn):
         pass
 
     @classmethod
+    def pb_ones(cls, *args, **kwargs):
+        pass
+
+    @classmethod
     def tril(cls, x, k=0, out = None):
         out = x.zeros_like()
         D,P = out.data.shape[:2]
